@@ -141,6 +141,43 @@ func runC11(c *core.Ctx) {
 		c.Count("exhaustive_book_limit_pairs_with_both_verdicts", varies)
 	})
 
+	if !c.Quick() {
+		c.RunPart("l3-exhaustive-4", 40*time.Minute, func(c *core.Ctx) {
+			// 1048576 structures over four recipes x N in 1..6 x 4 PRNG-chosen insertion orders x both entry points
+			var mu sync.Mutex
+			varies := 0
+			core.ParallelFor(1<<20, c.Procs, func(w, s int) {
+				b := struct4Book(s)
+				chain, cyc := model.Chain(b)
+				if s%4096 == 0 {
+					c.Crumb(w, fmt.Sprintf("4-recipe structure %d\n%s", s, bookText(b)))
+				}
+				r := rand.New(rand.NewSource(int64(s)*7919 + c.Seed))
+				for n := 1; n <= 6; n++ {
+					seen := map[string]bool{}
+					for k := 0; k < 4; k++ {
+						p := perms4[r.Intn(len(perms4))]
+						for entry := 0; entry < 2; entry++ {
+							seen[c11Verdict(c, b, p, entry, n, chain, cyc)] = true
+						}
+					}
+					if cyc || (chain >= n-1 && chain <= n+1) {
+						c.Nontrivial("s4", fmt.Sprint(s), fmt.Sprint(n))
+					}
+					if len(seen) > 1 {
+						mu.Lock()
+						varies++
+						mu.Unlock()
+						c.Violation("resolve|verdict-varies", fmt.Sprintf("4-recipe structure %d limit %d: both success and failure observed", s, n),
+							c11Replay{bookText(b), "several", -1, n, chain, cyc, "one verdict", "both"})
+					}
+				}
+			})
+			c.Count("exhaustive4_structures", 1<<20)
+			c.Count("exhaustive4_book_limit_pairs_with_both_verdicts", varies)
+		})
+	}
+
 	c.RunPart("l3-chains", 30*time.Minute, func(c *core.Ctx) {
 		reps := c.N(12, 60)
 		type tc struct {
